@@ -54,8 +54,15 @@ def star_search_rule(cx, rep, rid):
                 continue
             n += 1
             bad = []
+            # the existing exit - a star target whose file cannot be fetched - may be spelled `?` or as a let-else
+            # (`let Some(file) = files.get_or_fetch_file(it) else { return None; }`, benign b35): both are that exit
+            fetch_miss = set()
+            for ls in walk(lp["arms"]):
+                if ls["k"] == "LetStmt" and ls.get("els") is not None and ls.get("init") is not None and ls["init"].get("k") in ("Call", "MethodCall") \
+                        and re.search(r"fetch|get_file|get_existing", (ls["init"].get("method") or ls["init"].get("callee") or "")):
+                    fetch_miss |= {id(y) for y in walk(ls["els"])}
             for x in walk(lp["arms"]):
-                if x["k"] == "Closure":
+                if x["k"] == "Closure" or id(x) in fetch_miss:
                     continue
                 if x["k"] == "Ret" and x.get("e") is not None and _is_none(x["e"]) and not any("desugar" in m_ for m_ in (x.get("mac") or [])):
                     bad.append(x)
